@@ -56,6 +56,41 @@ def ref(matrix, rates, times, centers, widths, scales, backsweep, backsweep_peri
 # and with erfcx(x) = exp(x^2) erfc(x): 1/2 erfcx(alpha - beta) exp(-beta^2) is the same value written without overflow for beta - alpha << 0.
 
 
+def r1_deciders(ctx) -> None:
+    """Who decides that a dataset needs one matrix per global index: a shift or a dispersion must switch it on."""
+    repo = ctx.repo
+    f1 = ctx.fn(IRF, "IrfMultiGaussian.is_index_dependent")
+    r1_ = lib.nodes(f1, ast.Return)
+    ctx.ob("C05-R1", "IrfMultiGaussian.is_index_dependent/shift", len(r1_) == 1 and norm(r1_[0].value) == "self.shift is not None", f1,
+           r1_[0] if r1_ else f1.node, "an IRF with a shift needs one matrix per global index (otherwise the shift is silently ignored)")
+    f2 = ctx.fn(IRF, "IrfSpectralMultiGaussian.is_index_dependent")
+    r2_ = lib.nodes(f2, ast.Return)
+    ok = len(r2_) == 1 and isinstance(r2_[0].value, ast.BoolOp) and isinstance(r2_[0].value.op, ast.Or) and \
+        {norm(v) for v in r2_[0].value.values} == {"super().is_index_dependent()", "self.dispersion_center is not None"}
+    ctx.ob("C05-R1", "IrfSpectralMultiGaussian.is_index_dependent/shift-or-dispersion", ok, f2, r2_[0] if r2_ else f2.node,
+           "a dispersed IRF is index dependent as well, and keeps the shift criterion of its base class")
+    f3 = ctx.fn(DUT, "index_dependent")
+    r3_ = lib.nodes(f3, ast.Return)
+    dp = f3.params()[0]
+    ok = len(r3_) == 1 and isinstance(r3_[0].value, ast.BoolOp) and isinstance(r3_[0].value.op, ast.And) and \
+        [norm(v) for v in r3_[0].value.values] == [f"isinstance({dp}.irf, IrfMultiGaussian)", f"{dp}.irf.is_index_dependent()"]
+    ctx.ob("C05-R1", "index_dependent/asks-the-irf", ok, f3, r3_[0] if r3_ else f3.node, "the dataset is index dependent iff its Gaussian IRF says so")
+    # every implementation switch and every matrix shape in the megacomplexes asks this one function
+    n = 0
+    for fi in repo.functions.values():
+        if not fi.rel.startswith("glotaran/builtin/megacomplexes/") or fi.name != "calculate_matrix":
+            continue
+        tests = [n_ for n_ in lib.nodes(fi, (ast.If, ast.IfExp)) if "index_dependent" in norm(n_.test)]
+        for t in tests:
+            n += 1
+            e, pos = lib.strip_not(t.test)
+            dparam = [p_ for p_ in fi.params() if p_ == "dataset_model"]
+            ctx.ob("C05-R1", f"{fi.short}/switch-by-index_dependent", norm(e) == "index_dependent(dataset_model)" and bool(dparam), fi, t,
+                   "matrix shape and implementation are chosen by index_dependent(dataset_model) of the dataset being calculated",
+                   construct=lib.short(t.test, 80))
+    ctx.sites("C05-R1", "index-dependence switches in calculate_matrix functions", n, 5)
+
+
 def r1(ctx) -> None:
     repo = ctx.repo
     lib.check_no_loop_escape(ctx, "C05-R1", ("glotaran/builtin/megacomplexes/decay/", "glotaran/model/irf.py"), 3)
@@ -286,4 +321,4 @@ def check(ctx) -> None:
         g(ctx)
 
 
-check.groups = [r1, r2, r3, r4]
+check.groups = [r1_deciders, r1, r2, r3, r4]
